@@ -122,7 +122,6 @@ def run(chk):
                 progs2[k] = progs2.get(k, []) + [p for p in v if json.dumps(p, sort_keys=True) not in known]
         res_t = _model(chk, "three", workers=8, coverage=False)
         progs3 = _programs(res_t)
-        _model(chk, "design_three", workers=8, coverage=False)
     res_w = fut_w.result()
     chk.add(model_ascoded_counterexample=bool(res_w.violated == "Inv_C20"))
     if res_w.violated != "Inv_C20":
@@ -153,13 +152,13 @@ def run(chk):
                 elif sig in two.get(kind, ()):
                     mb = 2
                 else:
-                    # wide alphabet (thorough): singleton commands; every 3rd program on sqlite
-                    if be == "sqlite" and i % 3:
+                    # wide alphabet (thorough): singleton commands; every 2nd program (sqlite: every 6th)
+                    if i % (6 if be == "sqlite" else 2):
                         continue
                     mb = 1
                 traces[2] += drv.explore(be, kind, pr, e, max_batch=mb)
             for i, pr in enumerate(progs3.get(kind, [])):
-                if i % (6 if be == "sqlite" else 2):
+                if i % (12 if be == "sqlite" else 4):
                     continue
                 traces[3] += drv.explore(be, kind, pr, e, max_batch=1)
         n_impl = len(traces[2]) + len(traces[3])
@@ -244,7 +243,9 @@ def run(chk):
     chk.exhaustive = True      # every program of the quick instance, every command order at quiescence points
     chk.assumptions += [
         "thorough tier adds the wide-alphabet and three-process instances: TLC checks them exhaustively, the real "
-        "stores run every 2nd-6th program of those instances (all command orders of each)",
+        "stores run every 2nd-12th program of those instances (all singleton command orders of each); the strict "
+        "property on the three-process design systems is implied by the carved-out run (kf is only ever set when "
+        "Dev_SqliteSetStateNoLock is TRUE)",
         "CPython asyncio.Lock internals (_locked/_waiters) and the stores' private state (_state / the database "
         "row) are read for the conformance projection only; verdicts use harness-owned sequence numbers and "
         "store contents read through get_state()",
